@@ -45,6 +45,13 @@ def main(argv):
                 ctx.note(f"anchor {spec} not resolvable: {type(e).__name__}: {e}")
                 ctx.tally("anchor-unresolvable")
         mod.run(ctx)
+        from . import lib as _lib
+        for _k, _v in _lib.LAYOUT_TALLY.items():
+            if _v:
+                ctx.tally(f"harness-objects:array-layout:{_k}", _v)
+        for _k, _v in _lib.DTYPE_TALLY.items():
+            if _v:
+                ctx.tally(f"harness-objects:coordinate-dtype:{_k}", _v)
         probe_report = P.report()
     except BaseException as e:  # noqa: BLE001
         ctx.note("shard crashed: " + traceback.format_exc()[-3000:])
